@@ -150,7 +150,7 @@ func init() {
 		Assumptions: []string{"map iteration inside dependencies (gqlparser, lo) is not enumerated", "deviation-bounded: combinations of more than the bound of order changes / preemptions are not covered"},
 		Budget: func(tier string) time.Duration {
 			if tier == "quick" {
-				return 75 * time.Second
+				return 120 * time.Second
 			}
 			return 14 * time.Minute
 		},
